@@ -279,7 +279,8 @@ std::string sdiff(const std::string &ref, const std::string &x) {
 // Reference R: a fresh Encoder / ExpertEncoder that receives every setter call of the history and of
 // the main job (in order) but performs no earlier encode, writing into a fresh EncoderBuffer.
 // -> ok <hex of R> <nep> <nef> | <decode of R, fresh objects> | E fresh=.. renc=.. rbufclear=.. rbufappend=.. rcounts=..
-//    (rcounts: num_encoded_points()/num_encoded_faces() of the reused encoder object vs the reference)
+//    (rcounts: num_encoded_points()/num_encoded_faces() after a successful encode, of the fresh repeats and of the
+//     reused encoder object in all three buffer disciplines, vs the reference)
 //    | D fresh=.. rdec=.. rbuf=.. concat=.. trail=..
 //    every flag is 1 (identical to the reference) or 0:<where it differs>; `-` = variant not applicable
 VH_OP(det) {
@@ -334,7 +335,12 @@ VH_OP(det) {
     }
   }
   // ---- the same once more, `reps` times, all objects fresh
-  std::string e_fresh = "1";
+  std::string e_fresh = "1", e_counts = "1";
+  auto counts_flag = [&](const EncOut &x, const char *where) {
+    if (e_counts == "1" && !R.same_counts(x))
+      e_counts = "0:" + std::to_string(R.nep) + "," + std::to_string(R.nef) + "/" + std::to_string(x.nep) + "," +
+                 std::to_string(x.nef) + "@" + where;
+  };
   for (int r = 0; r < reps && e_fresh == "1"; ++r) {
     EncoderBuffer buf;
     EncOut x;
@@ -355,10 +361,11 @@ VH_OP(det) {
       x = encode_with(e, main, &buf);
     }
     e_fresh = diff_of(R, x);
+    counts_flag(x, "fresh");
   }
   // ---- reused encoder object with a history of encode calls; three buffer disciplines:
   //      0 fresh EncoderBuffer per call, 1 one EncoderBuffer + Clear(), 2 one EncoderBuffer, appended
-  std::string e_flag[3], e_counts = "1";
+  std::string e_flag[3];
   std::vector<std::vector<uint8_t>> hist_streams;  // outputs of the history encodes (discipline 0)
   for (int mode = 0; mode < 3; ++mode) {
     EncoderBuffer shared;
@@ -396,10 +403,7 @@ VH_OP(det) {
       });
     }
     e_flag[mode] = diff_of(R, x);
-    if (mode == 0)
-      e_counts = R.same_counts(x) ? "1"
-                                  : "0:" + std::to_string(R.nep) + "," + std::to_string(R.nef) + "/" +
-                                        std::to_string(x.nep) + "," + std::to_string(x.nef);
+    counts_flag(x, mode == 0 ? "renc" : mode == 1 ? "rbufclear" : "rbufappend");
   }
   std::string out = R.ok ? "ok " + vh::hex(R.bytes) + " " + std::to_string(R.nep) + " " + std::to_string(R.nef)
                          : std::string("err-encode");
